@@ -15,6 +15,10 @@ CLAIMED = {
          "Theorems C16_accept_is_sentence / C16_sentence_is_accepted / C16_reject_is_not_sentence / C16_no_truncation / C16_structure_unique hold for every string and every fuel; interp_sound / interp_complete hold for every grammar. The grammar, the end-of-input check, the error return and the trim cutset are regenerated from peg.go / parser.go (C16_tie_*). path.ParsePath is run on >100k strings (all sentences <=3 leaves, random layouts, every single-edit mutant of a sample) and must equal the model in outcome and structure; a sample goes through pkg.CompileProfile.",
          "Trusted: Coq kernel; the hand transcription of the .peg actions and parser.go build() as PathGrammar.build (validated by the structure comparison); pigeon's runtime implementing PEG semantics for the node kinds used; fuel adequacy of default_fuel is measured (an Exhausted answer is reported), not proved; translator; extraction.",
          "DESIGN.md section 5 C16"),
+ "C02": ("Coq proof by induction over property paths (any nesting of / | ^ ( ), any graph): the clauses the generator emits (model of path.go traverse*/aggregate) compute exactly the denotation composition/union/converse, as a set; counting equals the size of the denotation outside the recorded defect class + regenerated Rego step templates and preamble digest (tie) + differential run of enumerated paths x graphs through pkg.Validate, observed via in/maxCount/nested traces, against the extracted model and the executable denotation",
+         "Theorems C02_values / C02_set / C02_strings / C02_nested_nodes / C02_nodes hold for every path, graph and focus node; C02_count_partial holds whenever no node is reached both by a forward and by an inverse final step and C02_count_refuted exhibits the recorded defect (known finding mixed-final-step-dup); C02_precedence is computed through the proved-correct ParsePath model of C16. Every enumerated path with <= 2 leaves (sampled to 5) x hand-made and random graphs is validated by the real library and the three observables must equal both the model and the denotation.",
+         "Trusted: Coq kernel; the reading of the Rego step templates and of the preamble helpers nodes_array / nested_nodes / find / search_subjects as PathSem.step_from (measured by the differential run; their text is tied by C02_tie_*); OPA evaluating partial set rules as unions; translator; extraction. Transitive (*) paths and custom (apiExt) properties are not modelled.",
+         "DESIGN.md section 5 C02"),
 }
 WIP = "check not built yet in this session (work in progress; see DESIGN.md section 9 for the order of work)"
 
